@@ -106,10 +106,16 @@ def run(ctx):
             'using a placeholder (deep-copying it for a call) always raises', 'a placeholder can be deep-copied without raising: an unknown reference would be silently delivered',
             dc.loc() if dc else 'gin/config.py', instance='raises-on-use')
   hk = ctx.func('config.find_unknown_references_hook')
-  ok = 'register_finalize_hook' in hk.decorator_names() and \
-      any(isinstance(c, ast.Call) and prog.resolve_call(hk, c) == 'config._iterate_flattened_values' for c in walk_local(hk.node)) and \
-      any(isinstance(n, ast.If) and 'isinstance(' in u(n.test) and '_UnknownConfigurableReference' in u(n.test) and
-          any(isinstance(c, ast.Call) and prog.resolve_call(hk, c) in prog.noreturn for c in ast.walk(n)) for n in walk_local(hk.node))
+  g_hk, f_hk = std_facts(prog, hk)
+  raises_on_placeholder = False
+  for n in g_hk.live_nodes():
+    if not any(prog.resolve_call(hk, c) in prog.noreturn for c in calls_of_node(n)) and n.kind != 'raise_stmt':
+      continue
+    for lp in [l for l in n.loops if isinstance(l, ast.For) and isinstance(l.target, ast.Name)]:
+      flat = isinstance(lp.iter, ast.Call) and prog.resolve_call(hk, lp.iter) == 'config._iterate_flattened_values'
+      if flat and ('c', 'isinstance(%s, _UnknownConfigurableReference)' % lp.target.id, True) in f_hk[n.id]:
+        raises_on_placeholder = True
+  ok = 'register_finalize_hook' in hk.decorator_names() and raises_on_placeholder
   ctx.check(ok, 'C15.placeholder', construct(hk), 'finalize rejects a placeholder at any nesting depth, naming the binding', 'the unknown-reference finalize hook no longer raises on placeholders at any depth', hk.loc(), instance='finalize')
 
   from .common import loop_examines_all
